@@ -840,15 +840,25 @@ async fn fail_all_pending(inner: &std::sync::Weak<WebSocketClientInner>, err: Re
     // The subscriber should not wait on it to learn the connection is gone.
     take_notify_sender(&inner_ref);
 
+    // The same goes for the calls already in flight: fail them before waiting
+    // for the writer.
+    fail_waiters(&inner_ref, &err);
+
     let _ = close_writer(&inner_ref).await;
 
+    // A call registered meanwhile wrote before the close and would wait for a
+    // reader that is gone.
+    fail_waiters(&inner_ref, &err);
+}
+
+fn fail_waiters(inner: &WebSocketClientInner, err: &RepeError) {
     let waiters = {
-        let mut pending = lock_pending_map(&inner_ref.pending);
+        let mut pending = lock_pending_map(&inner.pending);
         pending.drain().collect::<Vec<_>>()
     };
 
     for (request_id, sender) in waiters {
-        let _ = sender.send(Err(clone_fatal_error_for_waiter(&err, request_id)));
+        let _ = sender.send(Err(clone_fatal_error_for_waiter(err, request_id)));
     }
 }
 
